@@ -101,10 +101,8 @@ def C12ex.outsC : List SubsetOut :=
   [{ descs := [.plain e8, .plain fac, .plain e8, .plain e8], vals := [.int 5, .int 1, .int 7, .int 301], links := [] },
    { descs := [.plain e8, .plain fac, .plain e8, .plain e8], vals := [.int 5, .int 1, .int 7, .int 302], links := [] }]
 
-open C12ex in
-theorem C12ex.decU : decodeData tmpl false 2 bitsU = .ok (outsU, []) := by decide +kernel
-open C12ex in
-theorem C12ex.decC : decodeData tmpl true 2 bitsC = .ok (outsC, []) := by decide +kernel
+open C12ex in private theorem C12ex.decU : decodeData tmpl false 2 bitsU = .ok (outsU, []) := by decide +kernel
+open C12ex in private theorem C12ex.decC : decodeData tmpl true 2 bitsC = .ok (outsC, []) := by decide +kernel
 
 open C12ex in
 /-- every one of the 68 truncation points of the uncompressed example is a `BitReadError`, and so
